@@ -499,3 +499,24 @@ Definition ex_topo_dn := Topo (bs_of_N 6)
    Obj HWLOC_OBJ_NUMANODE 7 1 true (bs_of_N 2) 1024 0; Obj HWLOC_OBJ_NUMANODE 10 2 true (bs_of_N 4) 1024 1].
 Example ex_regress_default_nodeset_os_index : default_nodeset (init_state ex_topo_dn) 0 = Ok (bs_of_N 6).
 Proof. vm_compute. reflexivity. Qed.
+
+(* ---- HWLOC_TOPOLOGY_FLAG_NO_MEMATTRS ---- *)
+(* no predefined attribute: the application's attributes take ids 0, 1, ... (memattr_register_rules:
+   new id = number of attributes), they are ordinary stored attributes - best_target_optimal,
+   memattr_get_reads_content, memattr_enumerate_* do not assume anything about the id - and
+   Capacity/Locality semantics never apply to them (seeded change C14h keyed on id 0/1) *)
+Example ex_nomem_ids :
+  let s := run (init_state_nomem ex_topo)
+     [ORegister (nm [97]) 5; ORegister (nm [98]) 2;
+      OSet 0 (Some ex_numa0) (Some (LCpu (Some c01))) 0 10; OSet 0 (Some ex_numa1) (Some (LCpu (Some c01))) 0 30;
+      OSet 1 (Some ex_numa0) None 0 7; OSet 1 (Some ex_numa1) None 0 3] in
+  snd (register (init_state_nomem ex_topo) (nm [97]) 5) = Ok 0 /\
+  get_flags s 0 = Ok 5 /\ get_flags s 1 = Ok 2 /\
+  snd (get_best_target s 0 (Some (LCpu (Some (bs_of_N 1)))) 0) = Ok (11, 30) /\
+  snd (get_best_target s 0 (Some (LCpu (Some c23))) 0) = Err ENOENT /\
+  snd (get_best_target s 0 None 0) = Err ENOENT /\
+  snd (get_best_target s 1 None 0) = Ok (11, 3) /\
+  snd (get_value s 0 (Some ex_numa0) (Some (LCpu (Some c01))) 0) = Ok 10 /\
+  snd (set_value s 0 (Some ex_numa0) (Some (LCpu (Some c01))) 0 11) = Ok tt /\
+  m_attrs (fst (step s (OXmlNoMem ex_topo))) = [].
+Proof. vm_compute. repeat split. Qed.
